@@ -30,6 +30,12 @@ class C02(MotionMonitor):
                                              boost=0.06))]
 
     def gen_case(self, rnd, tier, k):
+        case = self.gen_case_core(rnd, tier, k)
+        if rnd.random() < 0.08:
+            case = self.as_plugin_case(case)       # the same program through the real plugin object and its registered hooks
+        return case
+
+    def gen_case_core(self, rnd, tier, k):
         name, feats = self.pick_class(rnd)
         settings = self.settings_for(rnd, feats)
         settings["g90e"] = rnd.random() < 0.5
@@ -39,6 +45,11 @@ class C02(MotionMonitor):
             if name == "disabled-throughout":
                 regs = gen_regions(rnd, rnd.randint(1, 4))
                 steps.insert(0, ["at", "ExcludeRegion", rnd.choice(["off", "disable"])])
+                if rnd.random() < 0.4:
+                    # ... switched off before any region exists; the regions are only defined during the job
+                    late, regs = regs, []
+                    for r in late:
+                        steps.insert(rnd.randrange(1, len(steps) + 1), ["region", list(r)])
             return dict(cls=name, settings=settings, regions=regs, steps=steps)
         if feats.get("fw"):
             feats["fwparam"] = rnd.choice(["", "S1"])
@@ -55,8 +66,11 @@ class C02(MotionMonitor):
     def check_case(self, case):
         stats = collections.Counter()
         sets = collections.defaultdict(set)
-        eng = Engine(case)
-        tr = eng.run()
+        if case.get("plugin"):
+            tr = self.run_plugin_case(case)
+            stats["cases_through_the_registered_plugin_hooks"] += 1
+        else:
+            tr = Engine(case).run()
         common_stats(tr, stats, sets)
         stats["class:" + case["cls"]] += 1
         v = []
